@@ -38,6 +38,8 @@ func init() {
 const groupPkg = "pkg/group"
 
 func runC17(c *an.Ctx) {
+	r177(c)
+	c.Min("R17.7", 6)
 	r171(c)
 	r172(c)
 	r173(c)
@@ -823,6 +825,7 @@ func r176(c *an.Ctx) {
 	c.Check(okAdd, rule, name+"|Add(len(members)) before any goroutine starts", fn.Pos(), "", "the wait group is not set to len(members) before the member goroutines start: the channel is closed early (send on closed channel) or never")
 	var members, closers int
 	okMember, okCloser := true, true
+	silent := false
 	for _, g := range an.GoStmts(fn) {
 		f := an.GoTarget(g)
 		if f == nil {
@@ -856,6 +859,12 @@ func r176(c *an.Ctx) {
 			if !okDone || !okCall {
 				okMember = false
 			}
+			// a member that has run reports its response whatever has happened to the context meanwhile: every path
+			// from entry to the end of the goroutine passes the send (the channel has room for every member)
+			if t, _ := (an.PathQuery{Target: func(x ssa.Instruction) bool { _, isRet := x.(*ssa.Return); return isRet && x.Block() != f.Recover }, Avoid: an.IsSendSite}).From(f, nil); t != nil {
+				okMember = false
+				silent = true
+			}
 			// exactly one send per member on every path
 			for _, s := range an.Sends(f) {
 				for _, s2 := range an.Sends(f) {
@@ -880,7 +889,11 @@ func r176(c *an.Ctx) {
 			}
 		}
 	}
-	c.Check(members == 1 && okMember, rule, name+"|each member runs once, reports once, then signals Done", fn.Pos(), "", "a member goroutine does not defer Done, does not call its member with the shared context, or can send more than once")
+	why176 := "a member goroutine does not defer Done, does not call its member with the shared context, or can send more than once"
+	if silent {
+		why176 = "a member goroutine can end without reporting its response (e.g. it returns when the shared context is already cancelled): late successes lose their slot in All/Most, and with an already cancelled caller context failures are not reported at all (All returns nil, Race/Fast see no response)"
+	}
+	c.Check(members == 1 && okMember, rule, name+"|each member runs once, reports once, then signals Done", fn.Pos(), "", why176)
 	c.Check(closers == 1 && okCloser, rule, name+"|one closer waits for all members, then closes", fn.Pos(), "", "the response channel is not closed by a goroutine that first waits for all members")
 	// the go statement is inside the loop over members with the loop's own index and member
 	inLoop := false
@@ -915,4 +928,56 @@ func r176(c *an.Ctx) {
 		}
 	}
 	c.Check(okI, rule, name+"|the response carries the member's own index", fn.Pos(), "", "the index reported with a response is not the member's position")
+}
+
+// r177: the actions a trait group hands to group.Execute run on the context Execute gives them (the one it
+// cancels once the outcome is decided), not on a context captured from the enclosing call.
+func r177(c *an.Ctx) {
+	const rule = "R17.7"
+	n := 0
+	for _, fn := range c.Prog.FuncsIn("pkg/trait") {
+		if c.Prog.IsGenerated(fn.Pos()) || fn.Parent() == nil || len(fn.Params) != 1 {
+			continue
+		}
+		if an.NamedTypeName(fn.Params[0].Type()) != "context.Context" {
+			continue
+		}
+		res := fn.Signature.Results()
+		if res.Len() != 2 || !an.IsErrorType(res.At(1).Type()) || !strings.Contains(res.At(0).Type().String(), "proto.Message") && !strings.Contains(res.At(0).Type().String(), "ProtoMessage") {
+			continue
+		}
+		own := fn.Params[0]
+		an.Instrs(fn, func(in ssa.Instruction) {
+			call, ok := in.(ssa.CallInstruction)
+			if !ok {
+				return
+			}
+			for _, a := range call.Common().Args {
+				if an.NamedTypeName(a.Type()) != "context.Context" {
+					continue
+				}
+				n++
+				derived := false
+				for _, s := range an.SourcesOpaque(a) {
+					if s == ssa.Value(own) {
+						derived = true
+					}
+					// context.WithX(own, …)
+					if ex, isEx := s.(*ssa.Extract); isEx {
+						if cc, isCall := ex.Tuple.(*ssa.Call); isCall && len(cc.Call.Args) > 0 {
+							for _, s2 := range an.SourcesOpaque(cc.Call.Args[0]) {
+								if s2 == ssa.Value(own) {
+									derived = true
+								}
+							}
+						}
+					}
+				}
+				c.SawFunc(an.FuncName(fn))
+				c.Check(derived, rule, an.FuncName(fn)+"|member calls use the context the strategy gives them", in.Pos(), "",
+					"a group action calls its member with a context captured from the enclosing request instead of its own context parameter: the member never sees the cancellation group.Execute issues once the outcome is decided (Race/Fast winners, exceeded error budget), so the remaining members keep running")
+			}
+		})
+	}
+	c.Count("group_action_calls", n)
 }
